@@ -54,10 +54,9 @@ P = {
             'hash_fn (hist_after e _ cur); compared after every block: BeginBlock response, every '
             'ResponseDeliverTx (code, codespace, data, gas wanted / used, events in order; log / info excluded as documented '
             'non-deterministic), EndBlock response incl. validator updates, app hash; non-trivial = at least 5 accepted transactions of '
-            '3 kinds; a divergence names the height, the block index of the replay and the transaction. Tolerated and tagged '
-            '`candidate:gas-of-pre-ante-failure-after-restart` (candidate finding, witness corpus/C01/candidates/, `-arg strictgas=1` '
-            'turns the tolerance off): in the first block after a restart of exactly one of two compared replicas, the gas used of a '
-            'transaction refused before the ante handler, the EndBlock response and the app hash of that block. mapscan: one case per site (typed scan with go/types over export data of `go list`). registries: DAO export / '
+            '3 kinds; a divergence names the height, the block index of the replay and the transaction; corpus witnesses: the two '
+            'BLOCKHASH shapes, the 256-block window, and a restart directly before a block with a transaction refused before the ante '
+            'handler (found by this driver on /repo before e83669d: GasUsed and app hash depended on the restart). mapscan: one case per site (typed scan with go/types over export data of `go list`). registries: DAO export / '
             'sorted precompile keys / blocked addresses vs the model, and a metamorphic run of the real StateDB (same final values, '
             'differently ordered journals, incl. a failing blocked-address credit) whose store fingerprints must agree. upgrade175: the '
             'real v1.7.5 handler run several times on forks of one state with hundreds of liquid-token holders must write the same state',
